@@ -146,6 +146,27 @@ class Module:
         self.functions: Dict[str, FuncInfo] = {}
         self.assigns: Dict[str, ast.expr] = {}
         self._scan(self.tree.body)
+        self._scan_locals()
+
+    def _scan_locals(self) -> None:
+        """Function-local imports and classes (used to break import cycles / for small callbacks)."""
+        for fn in ast.walk(self.tree):
+            if not isinstance(fn, ast.FunctionDef) or fn.name.startswith("_unittest"):
+                continue
+            for st in ast.walk(fn):
+                if isinstance(st, ast.ImportFrom):
+                    base = self._resolve_relative(st.module, st.level)
+                    for a in st.names:
+                        self.imports.setdefault(a.asname or a.name, ("member", base, a.name))
+                elif isinstance(st, ast.Import):
+                    for a in st.names:
+                        self.imports.setdefault((a.asname or a.name).split(".")[0], ("module", a.name if a.asname else a.name.split(".")[0]))
+                elif isinstance(st, ast.ClassDef) and st.name not in self.classes:
+                    in_test = False
+                    self.classes[st.name] = ClassInfo(self, st, None)
+                    self.classes[st.name].qualname = "%s.%s.<locals>.%s" % (self.name, fn.name, st.name)
+                    for m in self.classes[st.name].methods.values():
+                        m.qualname = self.classes[st.name].qualname + "." + m.name
 
     def _scan(self, body: Sequence[ast.stmt]) -> None:
         for st in body:
